@@ -233,6 +233,13 @@ def body_generic_history(first: int, second: int) -> int:
     return _sh.check_generic_history(a, b)
 
 
+@obligation(pre="0 <= k <= 7 and 0 <= first <= 1", witnesses=(0,), timeout=120)
+def body_alias_history(k: int, first: int) -> int:
+    """the image under a type does not depend on an equal-comparing type (nested union in the other order; builtin aliases, tuple and dict type literals) having been converted to before"""
+    from props import shared as _sh
+    return _sh.alias_history(0 if k == 0 else (1 if k == 1 else (2 if k == 2 else (3 if k == 3 else (4 if k == 4 else (5 if k == 5 else (6 if k == 6 else 7)))))), first)
+
+
 # ------------------------------------------------------------------ generic dataclasses against their hand-written instances
 # A subscripted generic dataclass must behave like the class one would write by hand with the type argument substituted
 # everywhere the type variable occurs -- also inside typing constructs around ANOTHER generic dataclass (List[GBox[T]], ...).
@@ -252,6 +259,7 @@ class GShelf(PaneBase, t.Generic[_TG]):
     direct: GBox[_TG]
     tup: t.Tuple[GBox[_TG], _TG]
     ann: t.Optional[t.Annotated[_TG, Positive]] = None
+    comp: t.Optional[GBox[t.Dict[str, t.List[_TG]]]] = None      # the variable inside a compound ARGUMENT of another generic dataclass
 
 
 class GPair(PaneBase, t.Generic[_TG, _UG]):
@@ -268,6 +276,10 @@ class MBox_{tag}(PaneBase):
     value: A
 
 
+class MBoxC_{tag}(PaneBase):
+    value: t.Dict[str, t.List[A]]
+
+
 class MShelf_{tag}(PaneBase):
     boxes: t.List[MBox_{tag}]
     opt: t.Optional[MBox_{tag}]
@@ -275,6 +287,7 @@ class MShelf_{tag}(PaneBase):
     direct: MBox_{tag}
     tup: t.Tuple[MBox_{tag}, A]
     ann: t.Optional[t.Annotated[A, Positive]] = None
+    comp: t.Optional[MBoxC_{tag}] = None
 ''', ns)
     return ns[f'MBox_{tag}'], ns[f'MShelf_{tag}']
 
@@ -344,6 +357,8 @@ def shelf_value(k1, i1, s1, k2, i2, s2, shape, ci):
          'tup': [box1 if shape < 3 else box2, lf(k1, i1, s1, ci)]}
     if shape == 3:
         v['ann'] = lf(k2, i2, s2, ci)
+    if shape == 1:
+        v['comp'] = {'value': {'k': [lf(k2, i2, s2, ci)]}}
     return v
 
 
